@@ -17,6 +17,11 @@ cd /verif
 stop=6; case "$id" in C11|C16) stop=0;; esac
 REPO_DIR=$W HARNESS_DIR=$S/harness GOSYM_EVIDENCE_DIR=$S/evidence GOSYM_STOP_AFTER_VIOLATIONS=${MUTEST_STOP:-$stop} ./check "$id" --tier "$tier" > $S/log 2>&1
 rc=$?
+if [ $rc -ne 1 ] && [ "${MUTEST_STOP:-$stop}" != "0" ] && grep -q "stopped early" $S/log; then
+  # the early counterexamples were not confirmable (e.g. they depend on state leaked between explored paths): full run
+  REPO_DIR=$W HARNESS_DIR=$S/harness GOSYM_EVIDENCE_DIR=$S/evidence ./check "$id" --tier "$tier" > $S/log 2>&1
+  rc=$?
+fi
 echo "rc=$rc"; grep -c "^VIOLATION" $S/log | sed 's/^/violations=/'
 grep -E "^  (panic|assert|monitor|budget)|^CHECK-BROKEN|^ENGINE|^INCOMPLETE|^C[0-9]+ (quick|thorough)" $S/log | head -${MUTEST_LINES:-8}
 cleanup
